@@ -26,6 +26,44 @@ from dataclasses import dataclass, field
 from typing import NamedTuple, Optional, List
 
 
+class _Memo:
+    entries = {}
+    def __init__(self, func):
+        self.func = func
+    def __call__(self, x):
+        if x not in self.entries:
+            self.entries[x] = self.func(x)
+        return self.entries[x]
+
+@_Memo
+def _dbl(x):
+    return 2 * x
+
+@_Memo
+def _tpl(x):
+    return 3 * x
+
+def _logged(fn):
+    @functools.wraps(fn)
+    def inner(*a, **k):
+        return ('logged', fn(*a, **k))
+    return inner
+
+@_logged
+def _plus(a, b=1):
+    return a + b
+
+class _WithDecoratedMethod:
+    def __init__(self):
+        self.n = 5
+    @_logged
+    def get(self, k):
+        return self.n + k
+
+def f_decorators_shared_class_state():
+    # two decorated functions sharing one class-level dict: the second one returns the first one's cached value
+    return _dbl(4), _tpl(4), _tpl(5), _dbl(5), _plus(1), _plus(1, b=5), _WithDecoratedMethod().get(2)
+
 def f_divmod():
     q, r = divmod(1023, 8)
     return q, r, divmod(-7, 2)
